@@ -164,3 +164,19 @@ Example encode_example :
   let fresh := fun n => [120; Z.of_nat n + 48] in
   exists hs' d, encode fresh [68;95] false [[68;95;65]; [65]; [66]] = (hs', d) /\ length d = 2%nat.
 Proof. eexists. eexists. split; vm_compute; reflexivity. Qed.
+
+(* ---- code-level tie (docs/py2coq.md): the per-peptide database decision of PeptidePoolSplitter.split (`len(sources)
+        <= max_groups` -> the source set's name; else the FIRST --additional-split set contained in the sources -> its
+        'additional' database; else 'Remaining'), translated from /repo's current source by
+        harness/translate/py2coq.py into coq/Gen/Py_PeptidePoolSplitter.v on every run, is Split.db_key for every
+        configuration and source set. ---- *)
+From MoPep Require Gen.Py_PeptidePoolSplitter.
+From MoPep Require Import Proofs.Py2CoqSplitProofs.
+
+Theorem code_db_key_translated : Py_PeptidePoolSplitter.py_db_key_untranslated = false.
+Proof. vm_compute. reflexivity. Qed.
+Print Assumptions code_db_key_translated.
+
+Theorem code_db_key_is_model : forall c S, Py_PeptidePoolSplitter.py_db_key c S = db_key c S.
+Proof. exact code_db_key_is_model_l. Qed.
+Print Assumptions code_db_key_is_model.
